@@ -181,6 +181,8 @@ def teval(e: ast.AST, env: dict, leaf: Optional[Callable] = None, depth: int = 0
         if _is_arr(base):
             if e.attr == "shape":
                 return tuple(int(s) for s in base.shape)
+            if e.attr == "ndim":
+                return int(base.ndim)
             if e.attr == "T" and base.ndim == 2:
                 return base.T
             if e.attr in ("device", "dtype"):
@@ -324,6 +326,17 @@ def _call(c: ast.Call, ev, t: str):
         if dt == "<torch.bool>":
             return out != 0
         return out
+    if name in ("torch.min", "torch.max", "torch.minimum", "torch.maximum") and len(c.args) == 2 and not c.keywords:
+        a, b = _as_exact(ev(c.args[0])), _as_exact(ev(c.args[1]))
+        if _is_arr(a) and (_is_arr(b)):
+            return np.where(a < b, a, b) if "min" in name else np.where(a > b, a, b)
+        raise NotEvaluable("min / max with a dimension")
+    if name in ("torch.clamp_min", "torch.clamp_max") and len(c.args) == 2:
+        a, v = _as_exact(ev(c.args[0])), ev(c.args[1])
+        return np.where(a < v, v, a) if name.endswith("min") else np.where(a > v, v, a)
+    if name == "torch.relu" and len(c.args) == 1:
+        a = _as_exact(ev(c.args[0]))
+        return np.where(a < 0, Fraction(0), a)
     if name == "torch.arange" and 1 <= len(c.args) <= 3:
         return frac_array(list(range(*[_int(ev(a)) for a in c.args])))
     if name in ("max", "min") and c.args and not c.keywords:
@@ -331,6 +344,10 @@ def _call(c: ast.Call, ev, t: str):
         if any(_is_arr(v) for v in vals):
             raise NotEvaluable("builtin max / min of tensors")
         return (max if name == "max" else min)(*vals)
+    if name == "float" and len(c.args) == 1 and isinstance(c.args[0], ast.Constant) and isinstance(c.args[0].value, str) \
+            and c.args[0].value.strip().lower() in ("inf", "+inf", "-inf", "infinity", "-infinity"):
+        import math
+        return -math.inf if c.args[0].value.strip().startswith("-") else math.inf
     if name in ("int", "float", "bool") and len(c.args) == 1:
         v = ev(c.args[0])
         if _is_arr(v):
@@ -363,6 +380,23 @@ def _call(c: ast.Call, ev, t: str):
     if m in ("sum", "mean", "any", "all"):
         dim, keepdim = _kw(c, ev, ["dim", "keepdim"], [None, False])
         return _reduce(x, m, dim, keepdim)
+    if m in ("neg", "neg_"):
+        return -_as_exact(x)
+    if m in ("abs", "abs_"):
+        return np.vectorize(abs, otypes=[object])(_as_exact(x))
+    if m in ("min", "max", "minimum", "maximum") and len(c.args) == 1 and not c.keywords:
+        o = _as_exact(ev(c.args[0]))
+        if _is_arr(o):
+            xa = _as_exact(x)
+            return np.where(xa < o, xa, o) if "min" in m else np.where(xa > o, xa, o)
+        raise NotEvaluable("min / max along a dimension")
+    if m in ("new_zeros", "new_ones", "new_empty", "new_full") and c.args:
+        shape = ev(c.args[0])
+        if not isinstance(shape, tuple):
+            shape = tuple(ev(a) for a in (c.args if m != "new_full" else c.args[:1]))
+        out = np.empty(tuple(_int(s_) for s_ in shape), dtype=object)
+        out[...] = Fraction(1) if m == "new_ones" else (Fraction(ev(c.args[1])) if m == "new_full" else Fraction(0))
+        return out
     if m in ("clamp_min", "clamp_max", "clamp_min_", "clamp_max_"):
         (v,) = _kw(c, ev, ["min" if "min" in m else "max"], [None])
         x = _as_exact(x)
